@@ -31,8 +31,48 @@ def perform(op):
                                   **op.get("opts", {}))
             return {"raw": raw.hex()}
         if kind == "edit":
-            impl.edit(op["meta"], dict(op["req"]))
+            if op.get("cli"):
+                argv = op.get("flags", []) + ["edit", op["meta"]]
+                for key, flag in (("announce", "--tracker"), ("comment", "--comment"),
+                                  ("source", "--source")):
+                    if op["req"].get(key) is not None:
+                        val = op["req"][key]
+                        argv += [flag] + (val if isinstance(val, list) else [val])
+                impl.cli(argv)
+            else:
+                impl.edit(op["meta"], dict(op["req"]))
             return {"raw": open(op["meta"], "rb").read().hex()}
+        if kind == "create-abort":
+            # a creation that fails half way (the hash callback raises), as a cancelled GUI
+            # job or an I/O error would; what matters is what the NEXT operations do
+            from harness.common import quiet
+            cls, extra = impl.creator(op["kind"])
+            calls = [0]
+
+            def cancel(*_a, **_k):
+                calls[0] += 1
+                if calls[0] >= op.get("after", 2):
+                    raise KeyboardInterrupt("cancelled")
+            hashers = {"v1": "Hasher", "v2": "HasherV2", "hy": "HasherHybrid", "a2": "FileHasher",
+                       "a3": "FileHasher"}
+            import torrentfile.hasher as th
+            hcls = getattr(th, hashers[op["kind"]])
+            old_cb = hcls.__dict__.get("cb")
+            hcls.cb = staticmethod(cancel)
+            try:
+                with quiet():
+                    cls(path=op["path"], outfile=op["out"], progress=0, piece_length=op.get("pl"), **extra)
+                return {"aborted": False}
+            except BaseException as exc:  # noqa
+                return {"aborted": type(exc).__name__}
+            finally:
+                if old_cb is None:
+                    try:
+                        del hcls.cb
+                    except AttributeError:
+                        pass
+                else:
+                    hcls.cb = old_cb
         if kind == "recheck":
             if op.get("reuse"):
                 # a long-lived caller keeps its Checker object and asks again later; a fresh
